@@ -277,9 +277,17 @@ func (w *jobWorld) plantForeignPod() {
 		ObjectMeta: metav1.ObjectMeta{Namespace: "default", Name: name, Labels: map[string]string{"foreign": "true"}},
 		Spec:       corev1.PodSpec{Containers: []corev1.Container{{Name: "x", Image: "other"}}},
 	}
-	if w.scn.ForeignPod == "otherowner" {
-		t := true
+	t := true
+	switch w.scn.ForeignPod {
+	case "otherowner":
 		pod.OwnerReferences = []metav1.OwnerReference{{APIVersion: "execution.furiko.io/v1alpha1", Kind: "Job", Name: "other", UID: "uid-other", Controller: &t}}
+	case "previous-incarnation":
+		// A Pod left behind by a deleted Job of the same name (same name, other UID).
+		pod.OwnerReferences = []metav1.OwnerReference{{APIVersion: "execution.furiko.io/v1alpha1", Kind: "Job", Name: rj.Name, UID: "uid-of-the-deleted-job", Controller: &t}}
+		pod.Status.Phase = corev1.PodSucceeded
+	case "not-controller":
+		f := false
+		pod.OwnerReferences = []metav1.OwnerReference{{APIVersion: "execution.furiko.io/v1alpha1", Kind: "Job", Name: rj.Name, UID: rj.UID, Controller: &f}}
 	}
 	if _, err := w.API.Create("seed", sim.Pods, pod); err != nil {
 		panic(err)
@@ -398,6 +406,10 @@ func (w *jobWorld) envEnabled() []string {
 		}
 		if deleting && !s.KubeletDead {
 			out = append(out, "k:term:"+name)
+			// During graceful deletion the container may still run to completion.
+			if has(s.PodActions, "latefinish") && !podFinished(p) && p.Spec.NodeName != "" {
+				out = append(out, "k:succeed:"+name)
+			}
 		}
 		if !deleting && has(s.PodActions, "vanish") && w.mem.VanishUsed < s.MaxVanish {
 			out = append(out, "k:vanish:"+name)
